@@ -187,13 +187,17 @@ func tmplSrc(calls int) string {
 	for k := 0; k < calls; k++ {
 		fmt.Fprintf(&b, "[{{ F(x, %q) }}]", strings.Repeat("a", k+1))
 	}
-	b.WriteString("{% x = x + 1 %}<{{ x }}>")
+	// a macro used as a function VALUE that reads the run's global (a callable must not outlive its run)
+	b.WriteString("{% macro G %}({{ x }}){% end %}{% var fv = G %}{{ fv() }}")
+	b.WriteString("{% x = x + 1 %}<{{ x }}>{{ fv() }}")
 	return b.String()
 }
 
 func progSrc(calls int) string {
 	var b strings.Builder
-	b.WriteString("package main\nimport \"p\"\nvar g = 5\nfunc main() {\n\tv := p.Input(0)\n\tg += v\n")
+	// note is used as a function VALUE (deferred, assigned) and reads a package-level variable that depends on the
+	// run's input: a callable must not outlive its run
+	b.WriteString("package main\nimport \"p\"\nvar g = 5\nfunc note() { println(g) }\nfunc main() {\n\tv := p.Input(0)\n\tg += v\n\tdefer note()\n\th := note\n\th()\n")
 	if withGo && calls > 1 {
 		b.WriteString("\tgo p.F(v, \"go\")\n")
 		calls--
